@@ -132,7 +132,9 @@ impl HeaderPrefix {
             // Without a dynamic table only Required Insert Count 0 can be satisfied
             // and the base must not be negative.
             if self.sign_negative {
-                return Err(ParseError::InvalidBase(-(self.delta_base as isize) - 1));
+                // delta_base comes off the wire and may not fit an isize
+                let delta = self.delta_base.min(isize::MAX as usize) as isize;
+                return Err(ParseError::InvalidBase(-delta - 1));
             }
             return Ok((self.encoded_insert_count, self.encoded_insert_count));
         }
